@@ -133,7 +133,7 @@ def main():
             t.append("fuzz")
         return q, t
     NAMES = {"chk": "chk = the same monitor re-run in a release build with integer-overflow checks and debug assertions on",
-             "exp": "exp = the same monitor re-run in a build with the library's `experimental` feature compiled in, where the configuration generator also draws the direct-MSE and IRLS-MAE estimators (accepted by verification only in such a build)",
+             "exp": "exp = the same monitor re-run in a build with the library's `experimental` feature compiled in, where the configuration generator also draws the direct-MSE and IRLS-MAE estimators (accepted by verification only in such a build); it runs the quick workload in both tiers",
              "miri": "miri = tiny workloads with the same oracles under the Miri interpreter (UB, data races, deadlock, leaked threads; one seeded schedule per shard)",
              "tsan": "tsan = the quick workload under ThreadSanitizer (-Zbuild-std)",
              "asan": "asan = the quick workload under AddressSanitizer/LeakSanitizer",
